@@ -34,7 +34,14 @@ class Determinism(ParseHarness):
         return [('output %d independent of HashMap iteration order' % i, SEQ(a, b)) for i, (a, b) in enumerate(zip(out['o1'], out['o2']))]
     def witnesses(self, m, out):
         return {'several iteration orders explored': any(isinstance(d, int) and d > 1 for d in m.trace) or m.stats['choices'] > 0}
-    def result_summary(self, m, out, model): return None
+    def result_summary(self, m, out, model):
+        return {'ok': out['o1'] is not None, 'outputs': [X.mval(model, t) for t in out['o1']] if out['o1'] is not None else None}
+    def validate_sample(self, s, replay):
+        c = self.concretise(s['assignment'])
+        for _ in range(3):          # fresh hash seeds per HashMap instance: repeated native renders range over iteration orders
+            nat = replay.ask({'op': 'render', 'docs': c['docs'], 'options': list(self.options)})
+            if nat.get('outputs') != s['result']['outputs']: return False, 'native output differs from the canonical-order output on %r' % (c['docs'],)
+        return True, None
     def native_violation(self, a, replay):
         docs = self.concretise(a)['docs']
         seen = {}
